@@ -1,6 +1,6 @@
 """C08 - a deserialized engine behaves identically to the engine that was serialized."""
 from lib import vlib
-from checks import netcommon
+from checks import netcommon, coscommon
 
 
 def run(tier, seed):
@@ -10,7 +10,16 @@ def run(tier, seed):
     k = 2 if tier == "quick" else 3
     _, rep = netcommon.mc_and_replay(v, wd, "c08", k, False, workers=12 if tier == "quick" else 15)
     vlib.require(rep["nontrivial"] > 100, "replay too small")
-    return v.finish("model_checking", "lists of <= %d rules from one rule per shape" % k, exhaustive=True)
+    # the cosmetic half of the image: every cosmetic case is also executed on a reloaded engine
+    _, repc = coscommon.mc_and_replay(v, wd, "c16", 2 if tier == "quick" else 3)
+    _, reps = coscommon.mc_and_replay(v, wd, "c18", 1 if tier == "quick" else 2)
+    _, repk = coscommon.mc_and_replay(v, wd, "c17b", 3)
+    v.assumptions += ["the reloaded engine gets the caller's tags before loading and the same resources after it",
+                      "equality is checked both against the Ideal (both engines must give an allowed answer) and literally (reloaded == original)"]
+    return v.finish("model_checking",
+                    "network: all lists of <= %d rules from 29 rules (one per rule shape) x tag sets x 8 requests, on the original engine and on an engine "
+                    "loaded from its image; cosmetic: the c16 (scoping), c18 (scriptlets/permissions) and c17b (class/id buckets) universes, every case "
+                    "also executed after a serialize/deserialize round trip" % k, exhaustive=True)
 
 
 def replay(path):
